@@ -1026,7 +1026,7 @@ def run(ctx):
             gopts = [{"optimize_with_guessed_weights": True}, {"optimize_with_guessed_weights": True, "optimize_with_greedy": False},
                      {"optimize_with_guessed_weights": True, "optimize_with_greedy": False, "use_min_gen_set_lowerbound": True}]
             run_spec(ctx, tap, spec_mfd(fp, edges, gopts[i % 3]), extend=1)
-        for i in range(max(1, n // 16)):
+        for i in range(min(6, max(1, n // 16))):     # the cyclic family has 3 weight vectors x 2 option sets: more adds nothing
             rng = ctx.rng("mfdcgw", i); set_route((i + ctx.seed) % 2 == 1)
             edges = gw_gap_instance(fp, tap, rng, True)
             if edges is None:
